@@ -216,7 +216,10 @@ def run(rep, tier):
             got = 'throws ' + e.what
         rep.add('R0', 'tokenToInstr(%s)' % m, got == spec_isa.OPCODES[m], pos(t2i.node) + ' hexasm::tokenToInstr',
                 'maps to %r, ISA opcode is %d' % (got, spec_isa.OPCODES[m]), nontrivial=False)
-    rule_parse(rep, idx)
+    try:
+        rule_parse(rep, idx)
+    except AnalysisBroken as e:
+        rep.undecided('RA', 'literal-parsing', 'cannot interpret the literal path: %s' % e, 'hexasm.hpp hexasm::Lexer::readToken')
     total_classes = 0
     values_covered = 0
     for m in spec_isa.IMMEDIATE_MNEMONICS:
@@ -290,6 +293,22 @@ def rule_parse(rep, idx):
         rep.add('RA', '%s:[%d,%d]' % (sp, lo, hi), got == want and not I.ub, pos(f.node) + ' hexasm::Parser::parseInteger',
                 'literal %s n, n in [%d,%d]: parseInteger yields %r, expected int32 range %r%s' % (
                     '-' if sp == 'minus' else '', lo, hi, got, want, ('; UB: %s' % I.ub) if I.ub else ''))
+    # the lexer stores the literal as an unsigned 32-bit value obtained with strtoul base 10
+    lexf = idx.func('hexasm::Lexer::readToken')
+    ok = False
+    radix = 'not found'
+    for c in cast.calls_in(lexf.body):
+        if callee_of(c)[1] in ('strtoul', 'stoul', 'strtoull'):
+            a = cast.call_args(c)
+            base = cast.const_int(a[2], idx) if len(a) > 2 else None
+            ok = (base == 10)
+            radix = base
+    fld = [x for x in idx.record('hexasm::Lexer').fields if x['name'] == 'value']
+    ok = ok and bool(fld) and qt(fld[0]) in ('unsigned int', 'unsigned', 'uint32_t')
+    rep.add('RA', 'lexer:number-is-unsigned-base-10', ok, pos(lexf.node) + ' hexasm::Lexer::readToken',
+            'number token converted with strtoul(..., 10) into an unsigned 32-bit member' if ok else
+            'the literal is not read as an unsigned base-10 32-bit value (conversion radix %s: with radix 0 a zero-padded decimal such as 010 is '
+            'read as octal, and 08 is cut at the 8)' % radix)
     # the lexer delivers every decimal literal 0 .. 2^32-1 unchanged (no rejection, no clamping): its number branch is interpreted with
     # strtoul's result ranging over value classes that are split until every branch is uniform
     from .. import robust
@@ -301,6 +320,9 @@ def rule_parse(rep, idx):
         key = 'lexer:literal[%d,%d]' % (lo, hi)
         try:
             r = robust.lexer_number(idx, 'hexasm', lo, hi)
+        except AnalysisBroken as e:
+            rep.undecided('RA', key, 'lexer number branch outside the engine: %s' % e, pos(lexf0.node))
+            continue
         except NeedSplit as e:
             budget -= 1
             if lo == hi or budget < 0:
@@ -325,19 +347,6 @@ def rule_parse(rep, idx):
         rep.add('RA', key, same and is_num and not ub, pos(lexf0.node) + ' hexasm::Lexer::readToken',
                 'the lexer delivers the literal unchanged as a NUMBER token' if same and is_num and not ub else
                 'literal n in [%d,%d]: the lexer delivers %r (token %r)%s' % (lo, hi, v, tk, '; UB: %s' % ub if ub else ''))
-    # the lexer stores the literal as an unsigned 32-bit value obtained with strtoul base 10
-    lexf = idx.func('hexasm::Lexer::readToken')
-    ok = False
-    for c in cast.calls_in(lexf.body):
-        if callee_of(c)[1] in ('strtoul', 'stoul', 'strtoull'):
-            a = cast.call_args(c)
-            base = cast.const_int(a[2], idx) if len(a) > 2 else None
-            ok = (base == 10)
-    fld = [x for x in idx.record('hexasm::Lexer').fields if x['name'] == 'value']
-    ok = ok and bool(fld) and qt(fld[0]) in ('unsigned int', 'unsigned', 'uint32_t')
-    rep.add('RA', 'lexer:number-is-unsigned-base-10', ok, pos(lexf.node) + ' hexasm::Lexer::readToken',
-            'number token converted with strtoul(..., 10) into an unsigned 32-bit member' if ok else
-            'the literal is not read as an unsigned base-10 32-bit value')
     # InstrImm stores the parsed int unchanged
     rec = idx.record('hexasm::InstrImm')
     for c in [c for c in rec.ctors if not c.node.get('isImplicit')]:
